@@ -267,15 +267,23 @@ def ob_satcache(method, tier="quick"):
                 else:
                     c.check(label + "/iff-feasible", rz == z3.And(GX != ZERO, s.vfeasible), "solution() disagrees with feasibility")
             elif method == "unsat_core":
-                r = s.unsat_core()
-                G = conj(s.constraints)
+                r = s.unsat_core(extra_constraints=extra)
                 els = list(r)
                 if not all(isinstance(x, CH) for x in els):
                     c.fail(label + "/element-type", f"unsat_core() returned elements {[type(x).__name__ for x in els]}")
                 else:
-                    c.check(label + "/empty-iff-sat", (G != ZERO) if not els else (G == ZERO), "unsat_core() emptiness disagrees with satisfiability")
+                    # an empty core: satisfiable, or the extra constraints are unsatisfiable by themselves (the core ranges over the constraints)
+                    c.check(label + "/empty-iff-sat", z3.Or(GX != ZERO, conj(list(extra)) == ZERO) if not els else (GX == ZERO),
+                            "unsat_core() emptiness disagrees with satisfiability (under the extra constraints)")
                     if els:
-                        c.check(label + "/core-unsat", conj(els) == ZERO, "returned core is satisfiable")
+                        c.check(label + "/core-unsat", (conj(els) & conj(list(extra))) == ZERO, "returned core is satisfiable together with the extra constraints")
+                # a second, plain call must answer for the constraints alone (a core found under extra constraints is no core without them)
+                r2 = list(s.unsat_core())
+                G = conj(s.constraints)
+                if all(isinstance(x, CH) for x in r2):
+                    c.check(label + "/second-call-empty-iff-sat", (G != ZERO) if not r2 else (G == ZERO), "a later unsat_core() without extra constraints disagrees with satisfiability")
+                    if r2:
+                        c.check(label + "/second-call-core-unsat", conj(r2) == ZERO, "a later unsat_core() without extra constraints returned a satisfiable core")
             elif method == "simplify":
                 G0 = conj(s.constraints)
                 r = s.simplify()
